@@ -174,7 +174,26 @@ def class_key(x, cls, r):
     if (cls == "error-position-outside-fault" and "failed to satisfy the condition that" in r["out"]
             and re.match(r"(?:if|while|for)\b", x["bad_form"]) and "@" in x["bad_form"]):
         return "C06 misplaced-error:embedded-satisfaction-message:toplevel-if-with-qualified-expr"
+    if cls == "compiler-crash-without-positioned-error" and crash_site_overloaded_call_with_field_argument(x["bad_form"], x["src"]):
+        return CRASH_FIELD_KEY
     return None
+
+
+CRASH_FIELD_KEY = "C06 crash:argument-mismatch-in-call-of-overloaded-function-with-field-selection-argument"
+
+
+def crash_site_overloaded_call_with_field_argument(bad_form, src):
+    """Shape of one confirmed crash (ti_tdn.c:887, reached from terror.c:bputBadArgType0): a call that matches NO
+    definition of an OVERLOADED function while another argument is an implicit application (`r.f0`, a record /
+    union field: abImplicit).  The error reporter type-checks a copy of that argument once per rejected overload;
+    the copies share the implicit `apply` node, the first pass leaves it with a unique type, the second reads it as
+    a list of types: SIGSEGV before any message is printed.  One key for the family, whatever the form's text."""
+    if not re.search(r"\.f\d", bad_form):
+        return False
+    for name in set(re.findall(r"\b(f\d+)\(", bad_form)):
+        if len(re.findall(r"^%s\(" % name, src, re.M)) >= 2:
+            return True
+    return False
 
 
 # ------------------------------------------------------------------ text-level forms (shrinking)
@@ -536,6 +555,16 @@ def shape_cases():
                     cases.append(s_case("shape:wrong-arity", "%s/extra-at-%d-of-%d/%s" % (ctx, j + 1, n, form), S_KDEFS,
                                         call_forms(n, right, ctx),
                                         call_forms(n, right[:j] + [s_expr("MI", form)] + right[j:], ctx), [], {}))
+    # ---- a mismatching argument in a call of an OVERLOADED function while another argument is a field selection
+    ov = ["import from Record(f0: BI, f1: MI);\n", "rr: Record(f0: BI, f1: MI) := [(5@BI), (3@MI)];\n",
+          "ko(p0: BI, p1: MI): BI == p0;\n", "ko(p0: BI, p1: String): MI == (1@MI);\n"]
+    for shape, a1 in (("field-of-variable", "rr.f0"), ("field-of-record-literal", "(([(5@BI), (3@MI)]@Record(f0: BI, f1: MI)).f0)")):
+        c = s_case("shape:wrong-argument-type", "overloaded-callee/%s-as-other-argument" % shape, ov,
+                   "stdout << ko(%s, (7@MI)) << newline;\n" % a1, "stdout << ko(%s, (7@BI)) << newline;\n" % a1, [],
+                   {"expected": "MI or String", "given": "BI"})
+        c["key_override"] = CRASH_FIELD_KEY
+        c["expect_out"] = "5\n"
+        cases.append(c)
     # ---- undefined name: a variable (zz9) or a function (zf9) in every position class
     und = {
         "function-body:value": "u(): MI == %s;\n",
@@ -763,7 +792,8 @@ def run(rep, tier):
             if cb:
                 viol.append(("template %s: planted fault: %s" % (c["kind"], cb),
                              _replay("reject", c["bad"], c["ranges"], rb, {"template": c["kind"], "params": c["params"]}),
-                             "C06 template %s fault %s %s" % (c["kind"], cb, json.dumps(c["params"], sort_keys=True))))
+                             (c.get("key_override") if cb == "compiler-crash-without-positioned-error" and c.get("key_override")
+                              else "C06 template %s fault %s %s" % (c["kind"], cb, json.dumps(c["params"], sort_keys=True)))))
     t_templates = time.time() - t0 - t_build
 
     # ---- 2. generated family and its mutants
